@@ -327,6 +327,10 @@ static int opt_work (
 			EGLPNUM_TYPENAME_ILLlp_basis_free (p->basis);
 			ILL_IFFREE(p->basis);
 		}
+		/* the statuses carry over to the unscaled problem, the steepest-edge
+		 * norms do not: they are the weights of the scaled rows and columns */
+		EGLPNUM_TYPENAME_EGlpNumFreeArray (p2->basis->rownorms);
+		EGLPNUM_TYPENAME_EGlpNumFreeArray (p2->basis->colnorms);
 		p->basis = p2->basis;
 		p2->basis = 0;
 		EGLPNUM_TYPENAME_QSfree_prob (p2);
